@@ -2,7 +2,7 @@
 # bin/scratch.sh <seeded-name|--sed file expr> <PROP> [PROP...] : sensitivity probe in the parallel scratch workspace
 # (/tmp/verif2 built against the git worktree /tmp/repo2), so that /repo stays untouched while sweeps run.
 V=$(cd "$(dirname "$0")/.." && pwd)
-rsync -a --exclude target --exclude replays --exclude .git --exclude shadow/Cargo.toml --exclude bin/check --exclude evidence --exclude Cargo.lock $V/ /tmp/verif2/
+rsync -a --exclude target --exclude replays --exclude .git --exclude evidence --exclude Cargo.lock $V/ /tmp/verif2/
 git -C /tmp/repo2 checkout -q -- . ; git -C /tmp/repo2 checkout -q --detach $(git -C /repo rev-parse HEAD) 2>/dev/null
 if [ "$1" = "--sed" ]; then
   F=$2; E=$3; shift 3
@@ -15,6 +15,6 @@ else
   echo "== $N"
 fi
 for P in "$@"; do
-  (cd /tmp/verif2 && VERIF_DIR=/tmp/verif2 bin/check $P quick 2>&1 | grep -E "^violation|^summary|HARNESS" | cut -c1-330 | head -5)
+  (cd /tmp/verif2 && VERIF_REPO=/tmp/repo2 VERIF_DIR=/tmp/verif2 bin/check $P quick 2>&1 | grep -E "^violation|^summary|HARNESS" | cut -c1-330 | head -5)
 done
 git -C /tmp/repo2 checkout -q -- .
